@@ -72,8 +72,12 @@ Definition within (bd : option N) (n : N) : bool :=
 
 (* ------------------------------------------------------------------ primitive encoders *)
 
+(* big-endian, k bytes, most significant first *)
 Fixpoint be (k : nat) (n : N) : bytes :=
-  match k with O => [] | S k' => be k' (n / 256) ++ [n mod 256] end.
+  match k with
+  | O => []
+  | S k' => (n / 256 ^ N.of_nat k') mod 256 :: be k' n
+  end.
 
 Definition enc_uint (n : N) : bytes :=
   if n <? 128 then [n]
@@ -166,6 +170,22 @@ Fixpoint need (v : value) : nat :=
   | VList l | VStruct l => fold_right (fun x m => Nat.max (need x) m) O l
   | VMap l => fold_right (fun kv m => Nat.max (Nat.max (need (fst kv)) (need (snd kv))) m) O l
   | _ => O
+  end.
+
+(* map keys of the supported kinds (integers, strings, byte arrays, named versions of these) *)
+Fixpoint vkey (v : value) : bool :=
+  match v with
+  | VUint _ | VInt _ | VBytes _ => true
+  | VRef v' => vkey v'
+  | _ => false
+  end.
+
+(* the encoding is the single nil byte (a pointer to such a value cannot be told from a nil pointer) *)
+Fixpoint head_nil (v : value) : bool :=
+  match v with
+  | VNil => true
+  | VRef v' | VSome v' => head_nil v'
+  | _ => false
   end.
 
 Fixpoint minsert (k v : value) (l : list (value * value)) : list (value * value) :=
@@ -297,8 +317,15 @@ Definition rd_arrhdr (b : bytes) : res (N * bool * bytes) :=
       else Err EType
   end.
 
+(* [lacks b n] = fewer than n bytes left (= len b <? n, without measuring all of b) *)
+Fixpoint lacks (b : bytes) (n : N) : bool :=
+  match b with
+  | [] => negb (n =? 0)
+  | _ :: b' => if n =? 0 then false else lacks b' (n - 1)
+  end.
+
 Definition take (n : N) (b : bytes) : res (bytes * bytes) :=
-  if len b <? n then Err EShort else Ok (firstn (N.to_nat n) b, skipn (N.to_nat n) b).
+  if lacks b n then Err EShort else Ok (firstn (N.to_nat n) b, skipn (N.to_nat n) b).
 
 (* length prefix of a str / bin object: (length, rest) *)
 Definition rd_strbin_len (lead : N) (t : bytes) : option (res (N * bytes)) :=
@@ -484,7 +511,7 @@ Fixpoint wtb (s : schema) (v : value) {struct v} : bool :=
   | VMap l => match s with
               | SMap bd ks vs =>
                   within bd (len l) && (len l <? u32) && sorted_keys l
-                  && forallb (fun kv : value * value => let (k, x) := kv in wtb ks k && wtb vs x) l
+                  && forallb (fun kv : value * value => let (k, x) := kv in vkey k && wtb ks k && wtb vs x) l
               | _ => false
               end
   | VStruct vs =>
@@ -505,21 +532,22 @@ Fixpoint wtb (s : schema) (v : value) {struct v} : bool :=
                | SRef id => match lookup id with Some s' => wtb s' v' | None => false end
                | _ => false
                end
-  | VSome v' => match s with SPtr e => wtb e v' | _ => false end
+  | VSome v' => match s with SPtr e => wtb e v' && negb (head_nil v') | _ => false end
   end.
 
-(* declared allocbounds only (the C41 observable): every collection within its bound *)
-Fixpoint bounds_okb (s : schema) (v : value) {struct v} : bool :=
+(* declared allocbounds only (the C41 observable): every collection within its bound;
+   [chkmap = false] ignores the bounds of maps (signature of the duplicate-key merge finding) *)
+Fixpoint bounds_gen (chkmap : bool) (s : schema) (v : value) {struct v} : bool :=
   match v with
   | VBytes b => match s with SBytes bd | SString bd => within bd (len b) | _ => true end
   | VList l => match s with
-               | SArray _ e => forallb (bounds_okb e) l
-               | SSlice bd e => within bd (len l) && forallb (bounds_okb e) l
+               | SArray _ e => forallb (bounds_gen chkmap e) l
+               | SSlice bd e => within bd (len l) && forallb (bounds_gen chkmap e) l
                | _ => true
                end
   | VMap l => match s with
               | SMap bd ks vs =>
-                  within bd (len l) && forallb (fun kv : value * value => let (k, x) := kv in bounds_okb ks k && bounds_okb vs x) l
+                  (negb chkmap || within bd (len l)) && forallb (fun kv : value * value => let (k, x) := kv in bounds_gen chkmap ks k && bounds_gen chkmap vs x) l
               | _ => true
               end
   | VStruct vs =>
@@ -527,18 +555,20 @@ Fixpoint bounds_okb (s : schema) (v : value) {struct v} : bool :=
       | SStruct fs =>
           (fix go (fs : list (fhdr * schema)) (vs : list value) {struct vs} : bool :=
              match fs, vs with
-             | (_, fsch) :: fs', v :: vs' => bounds_okb fsch v && go fs' vs'
+             | (_, fsch) :: fs', v :: vs' => bounds_gen chkmap fsch v && go fs' vs'
              | _, _ => true
              end) fs vs
       | _ => true
       end
   | VRef v' => match s with
-               | SRef id => match lookup id with Some s' => bounds_okb s' v' | None => true end
+               | SRef id => match lookup id with Some s' => bounds_gen chkmap s' v' | None => true end
                | _ => true
                end
-  | VSome v' => match s with SPtr e => bounds_okb e v' | _ => true end
+  | VSome v' => match s with SPtr e => bounds_gen chkmap e v' | _ => true end
   | _ => true
   end.
+
+Definition bounds_okb := bounds_gen true.
 
 (* ---------------- decoder ---------------- *)
 
@@ -574,6 +604,102 @@ Fixpoint set_nth {A} (i : nat) (x : A) (l : list A) : list A :=
   | y :: l', S i' => y :: set_nth i' x l'
   end.
 
+(* ---- loops of the generated code, parameterised by the element decoders ---- *)
+Definition decoder := bytes -> res (value * bytes).
+
+(* `for i := range slice { decode element }` *)
+Fixpoint dec_list (D : decoder) (k : nat) (b : bytes) : res (list value * bytes) :=
+  match k with
+  | O => Ok ([], b)
+  | S k' => D b >>= fun p => dec_list D k' (snd p) >>= fun q => Ok (fst p :: fst q, snd q)
+  end.
+
+(* `for sz > 0 { sz--; key; value; m[key] = value }` : a Go map is kept as its sorted entry list *)
+Fixpoint dec_map (DK DV : decoder) (k : nat) (b : bytes) (acc : list (value * value))
+  : res (list (value * value) * bytes) :=
+  match k with
+  | O => Ok (acc, b)
+  | S k' => DK b >>= fun p => DV (snd p) >>= fun q => dec_map DK DV k' (snd q) (minsert (fst p) (fst q) acc)
+  end.
+
+Definition fdec := (fhdr * schema * decoder)%type.
+
+Fixpoint find_name (key : bytes) (fds : list fdec) (i : nat) : option (nat * decoder) :=
+  match fds with
+  | [] => None
+  | (h, _, D) :: t => if bytes_eqb (f_name h) key then Some (i, D) else find_name key t (S i)
+  end.
+
+Fixpoint find_decl (d : N) (fds : list fdec) (i : nat) : option (nat * decoder) :=
+  match fds with
+  | [] => None
+  | (h, _, D) :: t => if f_decl h =? d then Some (i, D) else find_decl d t (S i)
+  end.
+
+(* struct from a map: `switch string(field)`; a field met twice decodes into the existing value: Unm 1 *)
+Fixpoint sloop_map (fds : list fdec) (k : nat) (b : bytes) (slots : list (option value))
+  : res (list (option value) * bytes) :=
+  match k with
+  | O => Ok (slots, b)
+  | S k' =>
+      rd_str b >>= fun p =>
+      match find_name (fst p) fds O with
+      | None => Err ENoField
+      | Some (i, D) =>
+          match nth i slots None with
+          | Some _ => Unm 1
+          | None => D (snd p) >>= fun q => sloop_map fds k' (snd q) (set_nth i (Some (fst q)) slots)
+          end
+      end
+  end.
+
+(* struct from an array: fields in declaration order, ErrTooManyArrayFields beyond the last *)
+Fixpoint sloop_arr (fds : list fdec) (k : nat) (d : N) (b : bytes) (slots : list (option value))
+  : res (list (option value) * bytes) :=
+  match k with
+  | O => Ok (slots, b)
+  | S k' =>
+      match find_decl d fds O with
+      | None => Err ETooMany
+      | Some (i, D) => D b >>= fun q => sloop_arr fds k' (d + 1) (snd q) (set_nth i (Some (fst q)) slots)
+      end
+  end.
+
+(* fields that were not met keep the Go zero value *)
+Fixpoint fin_slots (zero : schema -> value) (fds : list fdec) (sl : list (option value)) : list value :=
+  match fds, sl with
+  | (h, fsch, _) :: fds', o :: sl' =>
+      (match o with
+       | Some v => v
+       | None => if f_oe h then VDefault else zero fsch
+       end) :: fin_slots zero fds' sl'
+  | _, _ => []
+  end.
+
+(* `required` fields must be non-zero after decoding *)
+Fixpoint req_ok (fds : list fdec) (vs : list value) : bool :=
+  match fds, vs with
+  | (h, fsch, _) :: fds', v :: vs' => (negb (f_req h) || negb (is_zero fsch v)) && req_ok fds' vs'
+  | _, _ => true
+  end.
+
+Definition struct_dec (zero : schema -> value) (fds : list fdec) (b : bytes) : res (value * bytes) :=
+  let finish (q : list (option value) * bytes) : res (value * bytes) :=
+    let vs := fin_slots zero fds (fst q) in
+    if req_ok fds vs then Ok (VStruct vs, snd q) else Err ERequired in
+  match rd_maphdr b with
+  | Ok (sz, _, r) =>
+      if lacks r sz then Err EShort
+      else sloop_map fds (N.to_nat sz) r (repeat None (length fds)) >>= finish
+  | Err EType =>
+      rd_arrhdr b >>= fun h =>
+      let '(sz, _, r) := h in
+      if lacks r sz then Err EShort
+      else sloop_arr fds (N.to_nat sz) 0 r (repeat None (length fds)) >>= finish
+  | Err e => Err e
+  | Unm k => Unm k
+  end.
+
 Section Body.
 Variable call : N -> bytes -> res (value * bytes).
 Variable zero : schema -> value.
@@ -598,39 +724,23 @@ Fixpoint dec_s (s : schema) (b : bytes) {struct s} : res (value * bytes) :=
       rd_arrhdr b >>= fun h =>
       let '(sz, _, r) := h in
       if n <? sz then Err EArray
-      else if len r <? sz then Err EShort
-      else
-        (fix loop (k : nat) (b : bytes) : res (list value * bytes) :=
-           match k with
-           | O => Ok ([], b)
-           | S k' => dec_s e b >>= fun p => loop k' (snd p) >>= fun q => Ok (fst p :: fst q, snd q)
-           end) (N.to_nat sz) r >>= fun q =>
-        Ok (VList (fst q ++ repeat (zero e) (N.to_nat (n - sz))), snd q)
+      else if lacks r sz then Err EShort
+      else dec_list (dec_s e) (N.to_nat sz) r >>= fun q =>
+           Ok (VList (fst q ++ repeat (zero e) (N.to_nat (n - sz))), snd q)
   | SSlice bd e =>
       rd_arrhdr b >>= fun h =>
       let '(sz, isnil, r) := h in
       if negb (within bd sz) then Err EOverflow
       else if isnil then Ok (VNil, r)
-      else if len r <? sz then Err EShort
-      else
-        (fix loop (k : nat) (b : bytes) : res (list value * bytes) :=
-           match k with
-           | O => Ok ([], b)
-           | S k' => dec_s e b >>= fun p => loop k' (snd p) >>= fun q => Ok (fst p :: fst q, snd q)
-           end) (N.to_nat sz) r >>= fun q => Ok (VList (fst q), snd q)
+      else if lacks r sz then Err EShort
+      else dec_list (dec_s e) (N.to_nat sz) r >>= fun q => Ok (VList (fst q), snd q)
   | SMap bd ks vs =>
       rd_maphdr b >>= fun h =>
       let '(sz, isnil, r) := h in
       if negb (within bd sz) then Err EOverflow
       else if isnil then Ok (VNil, r)
-      else if len r <? sz then Err EShort
-      else
-        (fix loop (k : nat) (b : bytes) (acc : list (value * value)) : res (list (value * value) * bytes) :=
-           match k with
-           | O => Ok (acc, b)
-           | S k' => dec_s ks b >>= fun p => dec_s vs (snd p) >>= fun q =>
-                     loop k' (snd q) (minsert (fst p) (fst q) acc)
-           end) (N.to_nat sz) r [] >>= fun q => Ok (VMap (fst q), snd q)
+      else if lacks r sz then Err EShort
+      else dec_map (dec_s ks) (dec_s vs) (N.to_nat sz) r [] >>= fun q => Ok (VMap (fst q), snd q)
   | SPtr e =>
       match b with
       | 192 :: t => Ok (VNil, t)
@@ -638,68 +748,7 @@ Fixpoint dec_s (s : schema) (b : bytes) {struct s} : res (value * bytes) :=
       end
   | SRef id => call id b >>= fun p => Ok (VRef (fst p), snd p)
   | SStruct fs =>
-      let nf := length fs in
-      let finish (slots : list (option value)) (r : bytes) : res (value * bytes) :=
-        let vs := (fix fin (fs : list (fhdr * schema)) (sl : list (option value)) : list value :=
-                     match fs, sl with
-                     | (h, fsch) :: fs', o :: sl' =>
-                         (match o with
-                          | Some v => v
-                          | None => if f_oe h then VDefault else zero fsch
-                          end) :: fin fs' sl'
-                     | _, _ => []
-                     end) fs slots in
-        if (fix req (fs : list (fhdr * schema)) (vs : list value) : bool :=
-              match fs, vs with
-              | (h, fsch) :: fs', v :: vs' => (negb (f_req h) || negb (is_zero fsch v)) && req fs' vs'
-              | _, _ => true
-              end) fs vs
-        then Ok (VStruct vs, r) else Err ERequired in
-      match rd_maphdr b with
-      | Ok (sz, _, r) =>
-          if len r <? sz then Err EShort
-          else
-            (fix loop (k : nat) (b : bytes) (slots : list (option value)) : res (list (option value) * bytes) :=
-               match k with
-               | O => Ok (slots, b)
-               | S k' =>
-                   rd_str b >>= fun p =>
-                   let key := fst p in
-                   (fix find (fs : list (fhdr * schema)) (i : nat) : res (list (option value) * bytes) :=
-                      match fs with
-                      | [] => Err ENoField
-                      | (h, fsch) :: fs' =>
-                          if bytes_eqb (f_name h) key then
-                            match nth i slots None with
-                            | Some _ => Unm 1
-                            | None => dec_s fsch (snd p) >>= fun q =>
-                                      loop k' (snd q) (set_nth i (Some (fst q)) slots)
-                            end
-                          else find fs' (S i)
-                      end) fs O
-               end) (N.to_nat sz) r (repeat None nf) >>= fun q => finish (fst q) (snd q)
-      | Err EType =>
-          (* struct-from-array: fields in declaration order *)
-          rd_arrhdr b >>= fun h =>
-          let '(sz, _, r) := h in
-          if len r <? sz then Err EShort
-          else
-            (fix loop (k : nat) (d : N) (b : bytes) (slots : list (option value)) : res (list (option value) * bytes) :=
-               match k with
-               | O => Ok (slots, b)
-               | S k' =>
-                   (fix find (fs : list (fhdr * schema)) (i : nat) : res (list (option value) * bytes) :=
-                      match fs with
-                      | [] => Err ETooMany
-                      | (h, fsch) :: fs' =>
-                          if f_decl h =? d then
-                            dec_s fsch b >>= fun q => loop k' (d + 1) (snd q) (set_nth i (Some (fst q)) slots)
-                          else find fs' (S i)
-                      end) fs O
-               end) (N.to_nat sz) 0 r (repeat None nf) >>= fun q => finish (fst q) (snd q)
-      | Err e => Err e
-      | Unm k => Unm k
-      end
+      struct_dec zero (map (fun x : fhdr * schema => let (h, fsch) := x in (h, fsch, dec_s fsch)) fs) b
   end.
 End Body.
 
